@@ -115,6 +115,17 @@ func genRestCase(rt *rapid.T) RestCase {
 		o := dbx.GenOp(rt, names, []string{"put", "put", "put", "activate", "delver", "del", "get", "getver", "list"}, 1)
 		if o.Kind == "put" {
 			o.Val = genMarker(rt, "value")
+			if rapid.IntRange(0, 3).Draw(rt, "short") == 0 {
+				// a short secret (a PIN, an 8-byte key): anything derived from "the first few bytes"
+				// of a value is the whole value here. Raw bytes only (text this short could occur in
+				// a time stamp or a record number by accident), masked so that shrinking towards
+				// zero bytes still leaves a marker that occurs nowhere by chance.
+				b := rapid.SliceOfN(rapid.Byte(), 8, 8).Draw(rt, "short-value")
+				for i, m := range []byte{0xd3, 0x6a, 0x91, 0x4e, 0xb7, 0x2c, 0xf8, 0x15} {
+					b[i] ^= m
+				}
+				o.Val = b
+			}
 		}
 		return o
 	}), 3, 14).Draw(rt, "ops")
@@ -417,7 +428,7 @@ func runC05Scan(t *testing.T, c RestCase) (*h.Violation, h.Info) {
 
 var c05scan = &h.Campaign[RestCase]{
 	Prop: "C05", Sub: "scan",
-	Rule:  "rapid: histories (3-14 calls) whose names and values are >=16-byte high-entropy markers (binary, JSON-special printable, hex-looking), state directory laid out as the server does (database + audit.log via audit.NewFile), real AES-256-GCM KEK behind a counting/poisonable wrapper, umask 0; after EVERY call every file is scanned for every value (raw, hex both cases, base64 std/url at all three alignments, JSON-escaped) and, except audit.log, for every name; mode bits checked; KEK call count must not move after Open (with the KEK poisoned in half the cases); finally a foreign KEK must fail to open and leave the file untouched; non-trivial = >= 3 successful saves scanned; distinct by scenario",
+	Rule:  "rapid: histories (3-14 calls) whose names and values are >=16-byte high-entropy markers (binary, JSON-special printable, hex-looking), state directory laid out as the server does (database + audit.log via audit.NewFile), real AES-256-GCM KEK behind a counting/poisonable wrapper, umask 0; after EVERY call every file is scanned for every value (raw, hex both cases, base64 std/url at all three alignments, JSON-escaped) and, except audit.log, for every name; mode bits checked; KEK call count must not move after Open (with the KEK poisoned in half the cases); finally a foreign KEK must fail to open and leave the file untouched; a quarter of the values are short (8 raw bytes: anything derived from a value's first bytes is the whole value); non-trivial = >= 3 successful saves scanned; distinct by scenario",
 	Quick: 2000, Thorough: 300000,
 	Gen: genRestCase,
 	Run: runC05Scan,
